@@ -94,7 +94,7 @@ func (c *badCondChecker) lessAndGreater(lhs, rhs *ast.BinaryExpr) bool {
 	if lhs.Op != token.LSS || rhs.Op != token.GTR {
 		return false
 	}
-	if !astequal.Expr(lhs.X, rhs.X) {
+	if !astequal.Expr(lhs.X, rhs.X) || !typep.SideEffectFree(c.ctx.TypesInfo, lhs.X) {
 		return false
 	}
 	a := c.ctx.TypesInfo.Types[lhs.Y].Value
